@@ -84,6 +84,9 @@ def render(fname, sig, ignore):
     return src
 
 
+PARTS = ("part", "part2", "part3", "part4", "part5", "partm1", "partm2")
+PART_CODE = {"partm1": "partm", "partm2": "partm"}      # partials with the same wrapped code and frozen arguments (bound to two instances)
+
 HEADER = '''
 import collections, functools
 COUNT = collections.Counter()
@@ -135,6 +138,12 @@ def other3(a, b, c=3):
 
 
 part3 = functools.partial(other3, 10)
+# two partials whose frozen argument is long and differs in its last element only
+# partials of one method bound to two instances
+partm1 = functools.partial(OBJ1.meth, 10)
+partm2 = functools.partial(OBJ2.meth, 10)
+part4 = functools.partial(base3, list(range(400)))
+part5 = functools.partial(base3, list(range(399)) + [1000])
 
 
 def nestbase(a, b=2, _get=False):
@@ -154,6 +163,16 @@ def kwnames(func, args=1, kwargs=2, ignore=3):
     # parameter names that joblib itself uses in its own signatures (not `self`: no bound method accepts that keyword)
     COUNT["kwnames"] += 1
     return ("kwnames", [("func", _c(func)), ("args", _c(args)), ("kwargs", _c(kwargs)), ("ignore", _c(ignore))])
+
+
+def attrfn(a, b=1):
+    COUNT["attrfn"] += 1
+    return ("attrfn", [("a", _c(a)), ("b", _c(b))])
+
+
+# attributes of the function that happen to be named like attributes of joblib's wrapper
+attrfn.ignore = ["b"]
+attrfn.func_id = "elsewhere"
 
 
 def unpick(a, b=1):
@@ -259,11 +278,11 @@ def gen_call(rng, fn, pool):
 def gen_history(rng, n_ops=14):
     funcs = gen_universe(rng, rng.choice([1, 2, 3]))
     pool = rng.sample(range(len(VALUES)), rng.randint(2, 5))
-    specials = ["meth1", "meth2", "part", "acoro", "part", "part2", "part3", "nestbase", "nested", "kwnames", "rec", "rec", "unpick"]
+    specials = ["meth1", "meth2", "part", "acoro", "part", "part2", "part3", "nestbase", "nested", "kwnames", "rec", "rec", "unpick", "part4", "part5", "partm1", "partm2", "attrfn", "attrfn"]
     p_special = 0.12
     if rng.random() < 0.12:
         # histories about callables that share one place in the store (partials; the two bound methods)
-        p_special = 0.8; specials = rng.choice([["part", "part2", "part3"], ["part", "part2"], ["meth1", "meth2", "part", "part3"],
+        p_special = 0.8; specials = rng.choice([["part", "part2", "part3"], ["part", "part2"], ["part4", "part5"], ["part4", "part5", "part"], ["partm1", "partm2"], ["partm1", "partm2", "meth1", "part"], ["meth1", "meth2", "part", "part3"],
                                                ["nested", "nestbase"], ["nested", "nestbase", "meth1"], ["rec"], ["rec", "kwnames"], ["unpick", "meth1"]])
         pool = pool[:2]
     ops = []
@@ -282,6 +301,9 @@ def gen_history(rng, n_ops=14):
                     c["kwargs"] = {n_: rng.randrange(len(pool)) for n_ in (["func"] if not c["args"] else []) + rng.sample(["args", "kwargs", "ignore"], rng.randint(0, 2))}
                 if sp.startswith("part"):
                     c["args"] = [rng.randrange(len(pool))]; c["kwargs"] = {"c": rng.randrange(len(pool))} if rng.random() < 0.4 else {}
+                if sp.startswith("partm"):
+                    c["args"] = [rng.randrange(len(pool))] if rng.random() < 0.6 else []
+                    c["kwargs"] = {} if c["args"] else {"b": rng.randrange(len(pool))}
             else:
                 fn = rng.choice(funcs)
                 c = None
@@ -481,7 +503,7 @@ def session(root, hist, start, t0, compress):
                 c = op[1]
                 args = [copy.deepcopy(vals[k]) for k in c["args"]]
                 kwargs = {k: copy.deepcopy(vals[v]) for k, v in c["kwargs"].items()}
-                cname = "meth" if c["fn"].startswith("meth") else {"part2": "part"}.get(c["fn"], c["fn"])
+                cname = "meth" if c["fn"].startswith("meth") else {"part2": "part", "part4": "part", "part5": "part", "partm1": "meth", "partm2": "meth"}.get(c["fn"], c["fn"])
                 n0 = umod.COUNT[cname]
                 f = get(c["fn"], op[0] == "callcb", c.get("loc", 0))
                 if op[0] == "check":
@@ -596,28 +618,37 @@ def run_history(hist):
                         k_ = (c["fn"], repr(plain_value(umod, vals, c)), loc)
                         if k_ in live:
                             damaged.add(k_); stats["damaged_entries"] += 1
-                        if c["fn"] in ("part", "part2", "part3"):
+                        if c["fn"] in PARTS:
                             # the partials share one place in the store and hash their call arguments alike: the file that
                             # was hit may be the entry of another partial -- all their live entries there are suspect
-                            for k2 in [k2 for k2 in live if k2[0] in ("part", "part2", "part3") and k2[2] == loc]:
+                            for k2 in [k2 for k2 in live if k2[0] in PARTS and k2[2] == loc]:
                                 damaged.add(k2)
                     continue
                 if loc:
                     stats["calls_at_second_location"] += 1
-                if c["fn"] in ("part", "part2", "part3"):
+                if c["fn"] in PARTS:
                     # functools.partial objects have no name: all of them share one place in the store, and the stored
                     # "source" (wrapped function + bound arguments) tells them apart -- using another partial is a
                     # source change that invalidates the entries of the previous one
-                    if store_partial.get(loc) != c["fn"]:
-                        for k in [k for k in live if k[0] in ("part", "part2", "part3") and k[0] != c["fn"] and k[2] == loc]:
+                    ck = PART_CODE.get(c["fn"], c["fn"])
+                    if store_partial.get(loc) != ck:
+                        for k in [k for k in live if k[0] in PARTS and PART_CODE.get(k[0], k[0]) != ck and k[2] == loc]:
                             del live[k]
                         stats["partial_switches"] += 1
-                    store_partial[loc] = c["fn"]
+                    store_partial[loc] = ck
                 want = plain_value(umod, vals, c)
                 if c["fn"] == "unpick":
                     # compare without the unpicklable (and unequal) last component; never cached
                     want = want[:2]
                 key = (c["fn"], repr(want), loc)        # the value spells out every non-ignored bound argument, type-aware
+                sibling_form_live = False
+                if c["fn"] in PARTS:
+                    # joblib cannot inspect a partial object: its call arguments are hashed as given, so every call FORM
+                    # has its own entry (known finding F48 when an equivalent form is live: reported, not hidden)
+                    base_k = repr(want) + "|form"
+                    key = (c["fn"], base_k + repr((len(c["args"]), sorted(c["kwargs"]))), loc)
+                    sibling_form_live = any(k_[0] == c["fn"] and k_[2] == loc and k_ != key and k_[1].startswith(base_k) and
+                                            (op[0] != "callcb" or tcur - live[k_] < 100) for k_ in live)
                 is_live = key in live and (op[0] != "callcb" or tcur - live[key] < 100)
                 if op[0] == "callcb" and key in live and not is_live:
                     del live[key]                   # joblib clears the expired entry
@@ -661,6 +692,11 @@ def run_history(hist):
                 exp_exec = 0 if is_live else 1
                 if is_live:
                     stats["hits_expected"] += 1
+                if sibling_form_live and not is_live and rec["executed"] == 1:
+                    stats["partial_called_in_another_form"] += 1
+                    findings.append(("C06", "hit_miss_mismatch", "%s: the same call of this partial object is live in the cache in another call form "
+                                     "(positional / keyword); the body was executed again" % describe(hist, c),
+                                     {"what": "hit_miss_mismatch", "partial_object_called_in_another_form": True}))
                 if rec["executed"] != exp_exec:
                     findings.append(("C06", "hit_miss_mismatch", "%s [%s]: body executed %d times, expected %d (entry %s)" % (
                         describe(hist, c), sig_text(hist, c["fn"]), rec["executed"], exp_exec, "live" if is_live else "not live"),
